@@ -270,23 +270,24 @@ impl<'l, Data> LoopHandle<'l, Data> {
 
     /// Removes this source from the event loop.
     pub fn remove(&self, token: RegistrationToken) {
-        if let Ok(&mut SourceEntry {
-            token: entry_token,
-            ref mut source,
-        }) = self.inner.sources.borrow_mut().get_mut(token.inner)
-        {
-            if let Some(source) = source.take() {
-                trace!(source = entry_token.get_id(), "Removing source");
-                if let Err(e) = source.unregister(
-                    &mut self.inner.poll.borrow_mut(),
-                    &mut self
-                        .inner
-                        .sources_with_additional_lifecycle_events
-                        .borrow_mut(),
-                    token,
-                ) {
-                    warn!("Failed to unregister source from the polling system: {e:?}");
-                }
+        // Take the source out of the list first and release the borrow: dropping the source
+        // may run user code that accesses the loop again (an `Async` adapter owned by a future
+        // of a removed executor frees its own slot on drop, for example)
+        let taken = match self.inner.sources.borrow_mut().get_mut(token.inner) {
+            Ok(entry) => entry.source.take().map(|source| (entry.token, source)),
+            Err(_) => None,
+        };
+        if let Some((entry_token, source)) = taken {
+            trace!(source = entry_token.get_id(), "Removing source");
+            if let Err(e) = source.unregister(
+                &mut self.inner.poll.borrow_mut(),
+                &mut self
+                    .inner
+                    .sources_with_additional_lifecycle_events
+                    .borrow_mut(),
+                token,
+            ) {
+                warn!("Failed to unregister source from the polling system: {e:?}");
             }
         }
     }
